@@ -181,7 +181,15 @@ def run(prop, tier, seed, out, timeout, miri=False, **kw):
         if not okb:
             return 2, "[gen_closure_exits] batch does not build although every program builds alone:\n" + outb[-3000:]
         rc, outr, dt = driver.run_bin(name, timeout=timeout)
-    if rc != 0 or "DONE" not in outr:
+    crashed = None
+    if not miri and rc in (-11, -6, -4, -7, 139, 134, 132, 135) and "DONE" not in outr:
+        # the generated programs are safe Rust: a memory fault / abort can only come from the macro expansion.  The
+        # programs run in order and each prints one OUT/FAIL line, so the one after the last line is the culprit.
+        done_ids = [int(l.split()[1]) for l in outr.splitlines() if l.startswith(("OUT ", "FAIL ")) and l.split()[1].isdigit()]
+        j = (max(done_ids) + 1) if done_ids else 0
+        if j < len(compiling):
+            crashed = (progs[compiling[j]], "FAIL %d the program was killed by signal %s while evaluating this macro call (safe code only)" % (j, -rc if rc < 0 else rc - 128))
+    elif rc != 0 or "DONE" not in outr:
         return 2, "[gen_closure_exits] run failed (rc %s):\n%s" % (rc, outr[-3000:])
     for line in outr.splitlines():
         if line.startswith("OUT "):
@@ -190,6 +198,8 @@ def run(prop, tier, seed, out, timeout, miri=False, **kw):
         elif line.startswith("FAIL "):
             j = int(line.split()[1])
             violations.append((progs[compiling[j]], line))
+    if crashed:
+        violations.append(crashed)
     nontriv = {p for p in progs if (p[1] != "none" and (p[3] > 0 or p[3] == p[2] - 1)) or p[4] == "tr" or p[5] in ("mut_bump", "ref_mut_bump")}
     samples = [{"macro": p[0], "exit": p[1], "n": p[2], "k": p[3], "elem": p[4], "param": p[5]} for p in progs if p in nontriv][::37][:10]
     text = []
